@@ -157,6 +157,8 @@ struct NodeShared {
     skew_micros: i64,
     /// One-shot: the transaction-id counter the node's socket is fast-forwarded to.
     tid_override: Option<u32>,
+    /// While set, the node's in-flight table is shrunk to its length before every iteration.
+    shrink_inflight: bool,
 }
 
 struct Shared {
@@ -384,6 +386,14 @@ impl Env for SimEnv {
         }
         let n = current_node()?;
         shared().as_mut().and_then(|s| s.nodes.get_mut(n)).and_then(|node| node.tid_override.take())
+    }
+
+    fn shrink_inflight_table(&self) -> bool {
+        if TL_LOCAL.with(|l| l.get()) || stale_thread() {
+            return false;
+        }
+        let Some(n) = current_node() else { return false };
+        shared().as_ref().and_then(|s| s.nodes.get(n)).map(|node| node.shrink_inflight).unwrap_or(false)
     }
 
     fn actor_exit(&self, panicking: bool) {
@@ -847,6 +857,7 @@ impl World {
                 bound_port: cfg.port,
                 skew_micros: cfg.skew_micros,
                 tid_override: None,
+                shrink_inflight: false,
             });
             assert!(s.constructing.is_none());
             s.constructing = Some(idx);
@@ -941,6 +952,7 @@ impl World {
                 bound_port: base_port + k as u16,
                 skew_micros: 0,
                 tid_override: None,
+                shrink_inflight: false,
             });
             assert!(s.constructing.is_none());
             s.constructing = Some(world_idx);
@@ -1645,6 +1657,14 @@ impl World {
     pub fn set_next_tid(&mut self, node: usize, tid: u32) {
         if let Some(s) = shared().as_mut() {
             s.nodes[node].tid_override = Some(tid);
+        }
+    }
+
+    /// From now on (until switched off) the node's in-flight table is exactly full at the top of
+    /// every loop iteration: capacity = length, the state in which the socket reclaims entries.
+    pub fn set_shrink_inflight(&mut self, node: usize, on: bool) {
+        if let Some(s) = shared().as_mut() {
+            s.nodes[node].shrink_inflight = on;
         }
     }
 
